@@ -4,6 +4,7 @@
 // a failing input can be searched.
 #include "common.h"
 #include <cstring>
+#include <limits>
 #include <cmath>
 #include "Minkowski.h"
 
@@ -114,6 +115,30 @@ int main ()
     Estimate<long double> r = m.get_Estimate(); long double mean = sx / sw, var = 1.0L / sw;
     O.put (dhexs ((double) (fabsl (r.val - mean) / std::max (fabsl (mean), 1e-4900L)))); O.put (dhexs ((double) (fabsl (r.var - var) / var)));
     O.put (dhexs (r.var > 0 ? 0.0 : 1.0)); };
+
+  // Estimate<T,U> with a variance type narrower than the value type (Estimate<double,float>, Estimate<long double,double>; the
+  // former is what PromoteTraits yields for Estimate<float> with double): every rule against the same rule evaluated at
+  // Estimate<long double,long double>, where the reference variance lies well inside the range of U.  Output: max relative
+  // error of the variances (scaled by the precision of U), number of values that differ from the reference beyond rounding
+  OP("o.c11.narrowvar") { double x = hexdouble (A.next()), vx = hexdouble (A.next()), y = hexdouble (A.next()), vy = hexdouble (A.next());
+    typedef Estimate<long double,long double> EL; EL lx (x, vx), ly (y, vy); double worst = 0; int badval = 0;
+    auto cmp = [&] (long double val, long double var, const EL& ref, long double lo, long double hi, long double prec) {
+      if (!(fabsl (ref.var) > lo && fabsl (ref.var) < hi)) return;
+      double e = (double) (fabsl (var - ref.var) / fabsl (ref.var) / prec); if (!(e == e)) e = 1e300; worst = std::max (worst, e);
+      if (fabsl (ref.val) > 0 && !(fabsl (val - ref.val) <= 1e-6L * fabsl (ref.val))) badval++; };
+#define NV(TT, UU, LO, HI, PREC) if (std::isfinite ((UU) vx) && std::isfinite ((UU) vy) && (UU) vx > std::numeric_limits<UU>::min() && (UU) vy > std::numeric_limits<UU>::min() && fabsl ((long double)(UU) vx - vx) <= 1e-5L * vx) \
+    { Estimate<TT,UU> ex ((TT) x, (UU) vx), ey ((TT) y, (UU) vy); Estimate<TT,UU> r; EL lx (x, (long double)(UU) vx), ly (y, (long double)(UU) vy); \
+      r = atan2 (ex, ey); { EL q = atan2 (lx, ly); cmp (r.val, r.var, q, LO, HI, PREC); } \
+      r = ex * ey; { EL q = lx * ly; cmp (r.val, r.var, q, LO, HI, PREC); } \
+      if (y != 0) { r = ex / ey; EL q = lx / ly; cmp (r.val, r.var, q, LO, HI, PREC); } \
+      r = ex + ey; { EL q = lx + ly; cmp (r.val, r.var, q, LO, HI, PREC); } \
+      r = ex - ey; { EL q = lx - ly; cmp (r.val, r.var, q, LO, HI, PREC); } \
+      if (x != 0) { r = ex.inverse(); EL q = lx.inverse(); cmp (r.val, r.var, q, LO, HI, PREC); } \
+      if (x > 0) { r = sqrt (ex); EL q = sqrt (lx); cmp (r.val, r.var, q, LO, HI, PREC); r = log (ex); EL q2 = log (lx); cmp (r.val, r.var, q2, LO, HI, PREC); } }
+    NV(double, float, 1e-30L, 1e30L, 1e-6L)
+    NV(long double, double, 1e-290L, 1e290L, 1e-14L)
+#undef NV
+    O.put (dhexs (worst)); O.put (badval); };
 
   return run_stream (ops);
 }
